@@ -205,7 +205,7 @@ def sorted_or_iter(s):
     """the oracle for Python's sorted() on the elements of a set (not adaptix code)"""
     try:
         return sorted(s)
-    except TypeError:
+    except Exception:  # noqa: BLE001  (TypeError for unorderable elements, decimal.InvalidOperation for Decimal vs nan …)
         return list(s)
 
 
@@ -366,6 +366,7 @@ def fixed_zoo():
         isinstance, range, slice, set, frozenset, bool, float, bytes, bytearray, tuple, Exception, map, filter,
         [], [1], [1, 2], [True, 1, 1.0], [None, [0, [False]]], [NAN], [Decimal("1")], [[Color.ONE]],
         (), (1,), (True,), (None,), ((1,),), (1, 2), (1, (2, (3,))), (NAN,), (Decimal("1"),), (Color.ONE, 1), ([],), ((), ()),
+        {Decimal("1"), NAN}, frozenset({Decimal("2"), NAN, 1}), [{Decimal("0"), NAN}],   # sorted() raises InvalidOperation
         set(), {1}, {1, 2, 3}, {"b", "a"}, {1, "a"}, {(1,), (2, 3)}, {frozenset({1})}, {NAN}, {Decimal("1")}, {True}, {0.0},
         frozenset(), frozenset({1}), frozenset({2, 1}), frozenset({"x", 1}), frozenset({Color.ONE}), frozenset({frozenset()}),
         {}, {"a": 1}, {1: "a", 2: [1]}, {True: False}, {(1,): {2: (3,)}}, {"k": Decimal("1")}, {Color.ONE: 1}, {"n": NAN},
